@@ -163,6 +163,15 @@ CHECKS = {
         "system-call boundary and a real SIGINT, tcgetattr must return exactly the initial list (all flags and control characters).",
         note="System-call names in the library's namespaces are replaced by counting proxies; a signal between entering a finally block and the restoring call is out of scope (cannot be excluded in Python).",
     ),
+    "C15": dict(
+        level="exploration",
+        technique="runtime monitor: freshness model of cell size / ratio / memoized values compared after every step of resize/toggle histories on a real pty; body-execution counters under barrier-released threads with sys.monitoring yield injection",
+        text="Histories of resizes (TIOCSWINSZ, pixels present or zero with XTWINOPS answered by the scripted terminal), swap toggles, "
+        "query enable/disable, cell-ratio mode changes and reads: every value must be what a fresh computation gives (pixel-only changes "
+        "lenient, as documented); results memoized while queries were disabled must vanish on enable_queries(); memoized probes run their "
+        "body exactly once per argument tuple / terminal size under 2..16 simultaneous first calls with line-level yield injection.",
+        note="Trusts the freshness model in vf/checks/c15.py and CPython's sys.monitoring for yield injection; AutoCellRatio.is_supported is taken as the library decides it at first use.",
+    ),
 }
 
 NOT_APPLICABLE = {
